@@ -28,7 +28,7 @@ def generate(seed, tier, index, kf):
     r = random.Random(seed)
     prof = {
         "mailboxes": ["inbox", "work"], "sessions": r.randint(1, 3), "weights": WEIGHTS, "init_hi": 6,
-        "ops_lo": 8, "ops_hi": 35 if tier == "quick" else 50, "keywords": "tame", "mode": "sequential",
+        "ops_lo": 8, "ops_hi": 35 if tier == "quick" else 50, "keywords": "tame", "mode": "sequential", "probe_p": r.choice((1.0, 1.0, 0.35, 0.1)),
         "recent_p": 0.05, "bad_set_p": 0.04,
     }
     prog = mailstore.generate(seed, prof)
